@@ -42,3 +42,13 @@ package cloudprovider
 
 //@ spec isNotInGroup(e error) bool = typeis(e, "*NodeNotInNodeGroup")
 //@ const C_DELNODE = 4
+
+//@ spec csize(id string) int
+//@ iface cloudprovider.NodeGroup.Size(n) (r)
+//@   pure
+//@   ensures r == csize(cpID(n))
+//@ iface cloudprovider.NodeGroup.ID(n) (r)
+//@   pure
+//@   ensures r == cpID(n)
+//@ iface cloudprovider.NodeGroup.Name(n) (r)
+//@   pure
